@@ -1199,6 +1199,30 @@ def gen_C16(seed, tier):
         c.apply(8, E('Mul', E('Pos', 1), E('Der', 1)), 1); c.show(8)
         c.apply(9, E('Pos', 3), 2); c.show(9)
         cases.append(c)
+    # evaluation close to an interval centre of pieces that vanish there (c_0 = 0): the magnitude S is tiny, so a
+    # formulation that loses the low-order bits of x - xm (cancellation) is far outside the bound; intervals centred at
+    # the origin and away from it; abscissae exactly representable in float
+    for r, pts in enumerate([[Fr(-11, 8), Fr(-3, 8), Fr(3, 8), Fr(1), Fr(2)], [Fr(-1), Fr(0), Fr(1, 2), Fr(3, 4), Fr(2)],
+                             [Fr(1, 4), Fr(3, 4), Fr(5, 4), Fr(7, 4), Fr(3)]]):
+        c = Case(f"C16c{r}")
+        c.grid_new(0, pts)
+        c.sup_new(1001, 0, 0, 5)
+        o = 2 + r
+        c.spl_new(1, o, 1001, [[Fr(0)] + [dyadic_coef(rng) or Fr(1) for _ in range(o)] for _ in range(4)])
+        c.apply(2, E('Pos', 1), 1)        # x * s: also small near the centre of an interval centred at 0
+        c.show(1); c.show(2)
+        c.meta['fine_eval'] = True         # evaluations judged relative to sum_k |c_k| |x - xm|^k (stages.stage_fp_round)
+        for k in range(4):
+            xm = (pts[k] + pts[k + 1]) / 2
+            for e in (10, 16, 18):
+                for sgn in (1, -1):
+                    x = xm + sgn * Fr(1, 2 ** e)
+                    c.spl_eval(1, x)
+                    c.spl_eval(2, x)
+            if xm == 0:
+                for e in (30, 45, 60):
+                    c.spl_eval(1, Fr(3, 2 ** e)); c.spl_eval(1, -Fr(1, 2 ** e)); c.spl_eval(2, Fr(5, 2 ** e))
+        cases.append(c)
     return cases
 
 
